@@ -237,8 +237,8 @@ type Artifact struct {
 	Sibling  []byte // a different input of the same type signed with the same key
 	Content  []byte // detached signatures: the signed content (nil otherwise)
 	// Target "file" mutates Signed; target "content" mutates Content.
-	Map        *Map // classes of Signed
-	ContentMap *Map // classes of Content (detached)
+	Map        *Map  // classes of Signed
+	ContentMap *Map  // classes of Content (detached)
 	Windows    []Win // byte-flip enumeration windows over Signed; nil = every offset
 	WindowNote string
 	Semantic   []SemMut
